@@ -9,8 +9,12 @@ from wire import hx, unhx, lst
 
 KIND = "run"
 SPECS = ["C10"]
-THEOREMS = []
-LEAN_MODULES = ["TbotVerif.Spec.Run"]
+THEOREMS = ["C10.c10_partial", "C10.split_witness", "C10.split_behaviour", "C10.c10_full_is_false",
+            "Run.step_sim", "Run.body_sim", "Run.enter_sim", "Run.next_exact", "Run.terminate_live", "Run.reading_sim",
+            "Run.send_sim", "Run.fetchRc_exact", "Run.rup_exact", "Run.status_table", "Run.type_len",
+            "C10.machine_refuses", "C10.ownership_c07", "C10.raises_after_end", "C10.terminate_twice", "C10.terminate_rule",
+            "C10.terminate0_rule", "C10.reading_rule"]
+LEAN_MODULES = ["TbotVerif.Props.C10", "TbotVerif.Props.C10Cor"]
 QUICK_N, THOROUGH_N = 600, 20000
 QUICK_BUDGET, THOROUGH_BUDGET = 45, 1500
 CASE_WALL = 25
